@@ -85,6 +85,10 @@ def run(ctx):
         z = [rng.choice([-2, -1, 0, 1, 3]) for _ in range(n)]
         N = [[sum(A[k][i] * A[k][j] for k in range(m)) for j in range(n)] for i in range(n)]
         rhs = [sum(N[i][j] * z[j] for j in range(n)) for i in range(n)]
+        if rng.random() < 0.5:
+            # an arbitrary right-hand side (e.g. a unit vector, as used for columns of the inverse): on a singular matrix the
+            # entries of dependent pivots must come out as exact zeros
+            rhs = [rng.choice([-3, -1, 0, 1, 2, 5]) for _ in range(n)] if rng.random() < 0.5 else [1 if j == rng.randrange(n) else 0 for j in range(n)]
         cmds.append("S %d %d %s %s" % (m, n, " ".join(hx(v) for row in A for v in row), " ".join(hx(v) for v in rhs)))
         meta.append((A, rhs))
         ctx.count(("sparse", str(A)), nontrivial=(n >= 2))
